@@ -11,7 +11,7 @@ import os
 import shutil
 import tempfile
 
-from ..ch import S, Fail, absorb, run_jobs
+from ..ch import S, Fail, absorb, run_jobs, untraced
 from ..common import run_native
 from ..stubs import FORMAT_STUBS_NOTE, TEXT_STUB_NOTE, capture_dump, install_format_stubs
 
@@ -304,6 +304,62 @@ def sub_links():
     return harness
 
 
+# ---- consecutive parses on one parser with sources that are ==-equal but of different type ----------------------------
+
+_EQ_MENU = [1, 1.0, True, 0, 0.0, False, 2, [1], [1.0], [True]]
+
+
+def _typed_repr(v):
+    return f"{type(v).__name__}:{v!r}"
+
+
+def _repeat_once(i, j, channel):
+    from typing import Any
+
+    from jsonargparse import ArgumentParser
+
+    p = ArgumentParser(exit_on_error=False)
+    p.add_argument("--a", type=Any, default=None)
+    p.add_argument("--t", type=str)
+    p.link_arguments("a", "t", compute_fn=_typed_repr)
+    v1, v2 = _EQ_MENU[i], _EQ_MENU[j]
+    import json as _json
+
+    def parse(v):
+        if channel == "object":
+            return p.parse_object({"a": v})
+        if channel == "parse_string":
+            return p.parse_string(_json.dumps({"a": v}))
+        return p.parse_args(["--a=" + _json.dumps(v)])
+
+    parse(v1)
+    cfg = parse(v2)
+    want = _typed_repr(cfg.a)
+    if cfg.t != want:
+        return Fail("link:target-differs-from-function-of-sources", shape="repeat", first=_typed_repr(v1), second=_typed_repr(v2), target=cfg.t, want=want, channel=channel)
+    back = p.parse_string(p.dump(cfg))
+    if back.t != _typed_repr(back.a):
+        return Fail("link:target-not-reconstructed-by-reparse", shape="repeat", second=_typed_repr(v2), target=back.t)
+    return True
+
+
+def repeat():
+    _repeat_once(0, 1, "object")
+
+    def harness():
+        i = S.choice("first", len(_EQ_MENU))
+        j = S.choice("second", len(_EQ_MENU))
+        channel = S.pick("channel", ["object", "parse_string", "argv"])
+        S.note("accepted")
+        with untraced():
+            res = _repeat_once(i, j, channel)
+        if res is True:
+            S.note("targets=1")
+        return res
+
+    return harness
+
+
 def static_checks():
     """Concrete API facts of the statement that have no symbolic dimension; run once natively."""
     from typing import List
@@ -439,6 +495,7 @@ def main(rep, tier):
                 kw.update(shard=sh, nshards=n)
             jobs.append(dict(module="c15", func="links", kwargs=kw, timeout=300 if tier == "quick" else 900))
     jobs.append(dict(module="c15", func="sub_links", kwargs={}, timeout=300))
+    jobs.append(dict(module="c15", func="repeat", kwargs={}, timeout=300))
     results = run_jobs(jobs)
     fails = absorb(rep, results, require_tags=("accepted", "targets=1", "targets=2"))
     rep.bounds["link_shapes"] = SHAPES
